@@ -146,7 +146,7 @@ type c03Write struct {
 
 const c03Sentinel = 12345.678
 
-var c03CallerSliceWritten, c03Calls, c03Hybrid int
+var c03CallerSliceWritten, c03Calls, c03Hybrid, c03ViaVec, c03InfBucketMismatch int
 
 func c03RunImpl(bs []float64, ops []float64, isWrite []bool) (panicked bool, outs []c03Write) {
 	var h prometheus.Histogram
@@ -179,8 +179,15 @@ func c03RunImpl(bs []float64, ops []float64, isWrite []bool) (panicked bool, out
 			}
 			c03Hybrid++
 		}
-		h = prometheus.NewHistogram(opts)
+		if c03Calls%4 == 1 {
+			// the same layout through a vector: every child follows the vector's layout exactly as a plain histogram would
+			h = prometheus.NewHistogramVec(opts, []string{"l"}).WithLabelValues("x").(prometheus.Histogram)
+			c03ViaVec++
+		} else {
+			h = prometheus.NewHistogram(opts)
+		}
 	}()
+	withExemplars := c03Calls%5 == 2
 	defer func() {
 		for k := range backing {
 			want := c03Sentinel
@@ -209,6 +216,14 @@ func c03RunImpl(bs []float64, ops []float64, isWrite []bool) (panicked bool, out
 				if ub != ub {
 					bits = 0x7FF8000000000001
 				}
+				if withExemplars && math.IsInf(ub, 1) && b.Exemplar != nil {
+					// the explicit +Inf bucket (present only as the carrier of an exemplar) is the implicit one made
+					// visible: it counts every observation
+					if b.GetCumulativeCount() != m.Histogram.GetSampleCount() {
+						c03InfBucketMismatch++
+					}
+					continue
+				}
 				w.bk = append(w.bk, [2]uint64{bits, b.GetCumulativeCount()})
 			}
 			outs = append(outs, w)
@@ -225,6 +240,8 @@ func c03RunImpl(bs []float64, ops []float64, isWrite []bool) (panicked bool, out
 			if m.Histogram.SampleCount != nil {
 				*m.Histogram.SampleCount += 3
 			}
+		} else if withExemplars {
+			h.(prometheus.ExemplarObserver).ObserveWithExemplar(ops[i], prometheus.Labels{"trace": "t"})
 		} else {
 			h.Observe(ops[i])
 		}
@@ -295,7 +312,10 @@ func runC03(c *cli.Ctx) error {
 		w.Add(emit.Tup(emit.FL(bs), emit.L(opT), impl), nobs >= 2 && !p, tags...)
 	}
 	w.Extra["runs_with_native_buckets_and_bucket_limit_next_to_the_classic_ones"] = c03Hybrid
-	if c03CallerSliceWritten > 0 {
+	w.Extra["runs_through_a_HistogramVec_child"] = c03ViaVec
+	if c03InfBucketMismatch > 0 {
+		w.Extra["direct_failures"] = []map[string]interface{}{{"index": -1, "what": fmt.Sprintf("in %d collections the explicit +Inf bucket (exemplar carrier) did not count every observation (cumulative count != sample count)", c03InfBucketMismatch)}}
+	} else if c03CallerSliceWritten > 0 {
 		w.Extra["direct_failures"] = []map[string]interface{}{{"index": -1, "what": fmt.Sprintf("in %d cases the caller's Buckets array was written to (inside the layout or in its spare capacity)", c03CallerSliceWritten)}}
 	}
 	return w.Flush()
